@@ -28,7 +28,7 @@ BUDGET = {"quick": (16, 30), "thorough": (16, 1200)}
 def _strategy(draw):
     kind = draw(st.sampled_from(["geom", "geom", "cone", "dist", "dist2", "cycle", "persist"]))
     if kind == "cycle":
-        spec = draw(gc.system(max_moltypes=1, max_res=12, min_res=4, shapes=("ring",), max_total_mol=2,
+        spec = draw(gc.system(max_moltypes=1, max_res=12, min_res=4, shapes=("ring",), max_total_mol=3,
                               allow_vs=False))
     elif kind in ("dist", "persist", "cone"):
         spec = draw(gc.system(max_moltypes=2, max_res=10, min_res=4, shapes=("linear",), max_total_mol=3,
@@ -123,6 +123,11 @@ def _strategy(draw):
     else:
         opts["cycles"] = [name]
         opts["cycle_tol"] = draw(st.sampled_from([0.0, 0.2, 0.5]))
+        if draw(st.booleans()):
+            # one copy of the ring is grown from another residue than the others (its closing edge differs)
+            copy_idx = draw(st.sampled_from(idxs))
+            ridx = draw(st.integers(1, nres - 1))
+            opts["start"] = [f"{name}#{copy_idx}-{mt['residues'][ridx]['resname']}#{ridx + 1}"]
         restraints.append({"kind": "cycle", "mol": name, "tol": opts["cycle_tol"]})
     spec["build"] = build or None
     spec["opts"] = opts
